@@ -3454,7 +3454,8 @@ class Session(object):
         """
         with self._lock:
             self.keyspace = keyspace
-            remaining_callbacks = set(self._pools.values())
+            pools = tuple(self._pools.values())
+        remaining_callbacks = set(pools)
         errors = {}
 
         if not remaining_callbacks:
@@ -3471,7 +3472,7 @@ class Session(object):
 
         # the same pools that are waited for: a pool removed or added meanwhile
         # must neither be waited for in vain nor report back unexpectedly
-        for pool in tuple(remaining_callbacks):
+        for pool in pools:
             pool._set_keyspace_for_all_conns(keyspace, pool_finished_setting_keyspace)
 
     def user_type_registered(self, keyspace, user_type, klass):
